@@ -35,3 +35,14 @@ def f16_boxed_ct_select_precision(case, impl, model, spec):
     if len(case.args) != 3 or len(case.args[0]) == len(case.args[1]):
         return False
     return impl == model and impl != spec
+
+
+def f27_zeroize_wrapper(case, impl, model, spec):
+    """F27: Zeroize for NonZero<T> / Odd<T> writes zero into the wrapper in place. Matches exactly: a zeroize route of the
+    C12 harness whose result is the all-zero value (the C12 check reports these cases through its extra_check with
+    known='F27'; this matcher exists so that the entry is also usable for a case-level comparison)."""
+    import re
+    if not re.fullmatch(r'w\.(nz|odd)\.zeroize', case.rop) or not impl.startswith('ok '):
+        return False
+    first = impl[3:].split(';')[0]
+    return all(int(w, 16) == 0 for w in first.split(','))
